@@ -20,5 +20,7 @@ func controlsC04() []Control {
 		{Name: "initial dealer searched from the big blind", Expect: "R7", Mutate: replaceIn("(*seatManager).initPositions", "sm.previousOccupiedSeatID(sm.SBSeatID, true)", "sm.previousOccupiedSeatID(sm.BBSeatID, true)", 0)},
 		{Name: "initial small blind may be an inactive seat", Expect: "R7", Mutate: replaceIn("(*seatManager).initPositions", "sm.previousOccupiedSeatID(sm.BBSeatID, true)", "sm.previousOccupiedSeatID(sm.BBSeatID, false)", 0)},
 		{Name: "heads-up initial dealer may be the big blind seat", Expect: "R7", Mutate: replaceIn("(*seatManager).initPositions", "seatPlayer.Active() && seatID != firstSeatID", "seatPlayer.Active()", 0)},
+		{Name: "wrap-around waiting arc includes the big-blind seat", Expect: "R8", Mutate: replaceIn("(*seatManager).isBetweenDealerBB", "i < (bbSeatID + sm.MaxSeat)", "i <= (bbSeatID + sm.MaxSeat)", 0)},
+		{Name: "waiting arc includes the dealer seat", Expect: "R8", Mutate: replaceIn("(*seatManager).isBetweenDealerBB", "targetSeatID > dealerSeatID", "targetSeatID >= dealerSeatID", 0)},
 	}
 }
